@@ -73,8 +73,93 @@ _op = st.one_of(
 
 @st.composite
 def _case(draw, tier):
-    n = 14 if tier == "quick" else 40
-    return {"ops": draw(st.lists(_op, min_size=3, max_size=n)), "observe_every": draw(st.sampled_from([1, 1, 2]))}
+    """State-aware: the strategy keeps a rough picture of which names exist so that operations needing an existing object (CLONE, CTAS,
+    views, ALTERs, RENAME, DROP) actually find one, and so that names get re-used after DROP / RENAME; a share of the operations is still
+    drawn blindly (operations on missing objects are skipped by the interpreter)."""
+    n = draw(st.integers(3, 14 if tier == "quick" else 40))
+    exists: dict[tuple, str] = {}  # (db, schema, name) indices -> TABLE | VIEW
+    gone: list[tuple] = []  # names that existed once
+    s2 = {0: True, 1: True}
+    ops: list = []
+
+    def free_locs():
+        return [(d, sc, nm) for d in (0, 1) for sc in (0, 1) for nm in (0, 1) if (d, sc, nm) not in exists and (sc == 0 or s2[d])]
+
+    for _ in range(n):
+        if draw(st.integers(0, 4)) == 0:
+            ops.append(draw(_op))  # blind
+            continue
+        tables = sorted(k for k, v in exists.items() if v == "TABLE")
+        menu = ["create", "create"]
+        if gone:
+            menu += ["recreate", "recreate"]
+        if exists:
+            menu += ["drop", "drop", "replace", "replace", "if_not_exists_on_existing"]
+        if tables:
+            menu += ["add_col", "drop_col", "rename_col", "rename", "set_comment", "set_comment"]
+            if free_locs():
+                menu += ["ctas", "clone", "view", "view"]
+        menu += ["schema"]
+        what = draw(st.sampled_from(menu))
+        if what in ("create", "recreate"):
+            cands = [g for g in gone if g not in exists and (g[1] == 0 or s2[g[0]])] if what == "recreate" else free_locs()
+            if not cands:
+                continue
+            w = draw(st.sampled_from(cands))
+            ops.append(["create", list(w), draw(_cols), draw(_comment), draw(st.sampled_from(["plain", "plain", "transient", "cluster_by", "if_not_exists"]))])
+            exists[w] = "TABLE"
+        elif what == "replace":
+            cands = tables or sorted(exists)
+            w = draw(st.sampled_from(cands))
+            if exists[w] != "TABLE":
+                continue
+            ops.append(["create", list(w), draw(_cols), draw(_comment), "or_replace"])
+        elif what == "if_not_exists_on_existing":
+            if not tables:
+                continue
+            w = draw(st.sampled_from(tables))
+            ops.append(["create", list(w), draw(_cols), draw(_comment), "if_not_exists"])
+        elif what == "drop":
+            w = draw(st.sampled_from(sorted(exists)))
+            ops.append(["drop", list(w)])
+            del exists[w]
+            gone.append(w)
+        elif what in ("ctas", "clone", "view"):
+            src = draw(st.sampled_from(tables))
+            w = draw(st.sampled_from(free_locs()))
+            if what == "ctas":
+                ops.append(["ctas", list(w), list(src), draw(st.sampled_from(["star", "first-col", "with-literal"]))])
+            elif what == "clone":
+                ops.append(["clone", list(w), list(src)])
+            else:
+                ops.append(["view", list(w), list(src), draw(st.booleans())])
+            exists[w] = "VIEW" if what == "view" else "TABLE"
+        elif what == "rename":
+            w = draw(st.sampled_from(tables))
+            other = (w[0], w[1], 1 - w[2])
+            ops.append(["rename", list(w), other[2]])
+            if other not in exists:
+                exists[other] = exists.pop(w)
+                gone.append(w)
+        elif what == "add_col":
+            ops.append(["add_col", list(draw(st.sampled_from(tables))), draw(_col)])
+        elif what in ("drop_col", "rename_col"):
+            ops.append([what, list(draw(st.sampled_from(tables)))])
+        elif what == "set_comment":
+            ops.append(["set_comment", list(draw(st.sampled_from(tables))), draw(st.sampled_from(["altered", "other", ""])), draw(st.sampled_from(["alter", "comment_on"]))])
+        else:
+            d = draw(_db)
+            if s2[d]:
+                ops.append(["drop_schema", d, 1])
+                for k in [k for k in exists if k[0] == d and k[1] == 1]:
+                    del exists[k]
+                    gone.append(k)
+            else:
+                ops.append(["create_schema", d, 1])
+            s2[d] = not s2[d]
+    if len(ops) < 3:
+        ops += [draw(_op) for _ in range(3 - len(ops))]
+    return {"ops": ops, "observe_every": draw(st.sampled_from([1, 1, 2]))}
 
 
 class T:
@@ -372,14 +457,15 @@ def run_history(case, ctx: Ctx) -> None:
                             continue
                         sql, how = f"CREATE OR REPLACE TABLE {fq} ({colsql(cols)}){cm}", ("replace" if have else ("recreate" if again else "create"))
                     elif have:
-                        if flavour != "if_not_exists":
-                            continue
+                        if flavour != "if_not_exists" or have.kind != "TABLE":
+                            continue  # (a table definition over an existing view's name is not this property's subject)
                         o = run(cur, f"CREATE TABLE IF NOT EXISTS {fq} ({colsql(cols)}){cm}")
                         if not o.ok:
                             ctx.fail(f"C09|create-if-not-exists|raises|{o.etype}", f"{o}")
                             return
                         ctx.cls("op:create-if-not-exists-on-existing")
-                        have.how = "if-not-exists-on-existing"  # nothing may change; provenance label for the signature
+                        if "if-not-exists-on-existing" not in have.how:
+                            have.how += "+if-not-exists-on-existing"  # nothing may change; provenance label for the signature
                         # (listed finding) the ignored definition's comment/lengths get recorded; later incarnations may inherit them
                         if comment is not None:
                             ghost_comments.setdefault(k, set()).add(comment)
@@ -513,7 +599,7 @@ PROP = Prop(
             strategy=_case,
             run=run_history,
             rule=(
-                "Hypothesis draws 3-14/40 DDL operations over 2 databases x 2 schemas x 3 names: CREATE [OR REPLACE | IF NOT EXISTS | TRANSIENT] "
+                "Hypothesis draws 3-14/40 DDL operations over 2 databases x 2 schemas x 2 names, state-aware (operations that need an existing object pick one that exists; dropped names are re-created; a fifth of the operations is drawn blindly): CREATE [OR REPLACE | IF NOT EXISTS | TRANSIENT] "
                 "TABLE [CLUSTER BY] with 1-5 columns from 22 type spellings (NOT NULL, VARCHAR lengths, COMMENT), CTAS (star / one column / "
                 "with literal), CLONE, CREATE [OR REPLACE] VIEW, ALTER ADD/DROP/RENAME COLUMN, RENAME TO, SET COMMENT, COMMENT ON, DROP, "
                 "DROP/CREATE SCHEMA, CREATE USER. After every step (or every 2nd) every observer is read from both databases: "
